@@ -128,3 +128,20 @@ def linear_from_f64():
                 wrap=('impl From<F64> for Linear {', '}'),
                 header='''fn from(constant: F64) -> (r: Self)
         ensures r.terms.len() == 0, r.constant == constant,''')
+
+
+# ---------------------------------------------------------------- C15
+def as_minimization_problem():
+    return Unit('Instance::as_minimization_problem', F, 'as_minimization_problem', impl=I, wrap=W,
+                sig='pub fn as_minimization_problem(&mut self)',
+                header='''pub fn as_minimization_problem(&mut self)
+    // observation (outside the property's valid instances): a present objective whose oneof is unset makes the operator code panic (`expect("Empty Function")`)
+    requires old(self).objective is Some ==> old(self).objective->Some_0.function is Some,
+    ensures
+        // a minimisation problem is left untouched (idempotence)
+        old(self).sense == 1 ==> *final(self) == *old(self),
+        // a maximisation problem: sense becomes minimise and the objective is negated; constraints, variables, everything else untouched
+        old(self).sense == 2 ==> final(self).sense == 1 && final(self).objective is Some && is_neg(final(self).objective->Some_0, ofun(*old(self)))
+            && *final(self) == (Instance { sense: final(self).sense, objective: final(self).objective, ..*old(self) }),
+        // in every case the result is a minimisation problem
+        final(self).sense == 1,''')
